@@ -53,7 +53,7 @@ func ExecDev(c *Case) (nontrivial bool, labels []string, fail *vlib.Failure) {
 		ncf.SetConfig(nil, device)
 		sbi := &config.SBI{Type: "netconf", Address: "127.0.0.1", Port: 1, NetconfOptions: &config.SBINetconfOptions{IncludeNS: d.NS}, ConnectRetry: 24 * time.Hour, Timeout: time.Second}
 		tgt = target.NewNCTargetWithDriver(name, sbi, scb, ncf)
-		sp.Protocol, sp.Paths = "netconf", []string{"/plain"}
+		sp.Protocol, sp.Paths = "netconf", []string{"/plain", "/types"}
 		if d.NS {
 			lab["netconf-include-ns"] = true
 		}
@@ -86,12 +86,13 @@ func ExecDev(c *Case) (nontrivial bool, labels []string, fail *vlib.Failure) {
 	if d.Kind == "gnmi-stream" {
 		// one subscription per sync entry (a second path inside one entry replaces the first one in the
 		// subscribe request the target builds; that is outside the property, so the harness does not rely on it)
-		sp2 := *sp
+		sp2, sp3 := *sp, *sp
 		sp2.Name, sp2.Paths = "st", []string{"/state"}
-		sps = append(sps, &sp2)
+		sp3.Name, sp3.Paths = "ty", []string{"/types"}
+		sps = append(sps, &sp2, &sp3)
 	}
 	if d.Kind == "gnmi-get" {
-		sp.Paths = []string{"/plain", "/state"}
+		sp.Paths = []string{"/plain", "/state", "/types"}
 	}
 	workers := c.Workers
 	if d.Kind == "gnmi-stream" {
@@ -182,7 +183,7 @@ func ExecDev(c *Case) (nontrivial bool, labels []string, fail *vlib.Failure) {
 			g1, n1, _, _ := gdev.Counters()
 			return waitFor(what+": cycle end", func() bool { _, a := deco.PruneCounts(); return a >= g1 && getDone() >= n1 })
 		default:
-			if f := waitFor(what+": subscriptions", func() bool { return gdev.Subscribers() >= 2 }); f != nil {
+			if f := waitFor(what+": subscriptions", func() bool { return gdev.Subscribers() >= 3 }); f != nil {
 				return f
 			}
 			return waitFor(what+": notifications stored", func() bool { _, _, q, s := gdev.Counters(); return s == q && getDone() >= s })
